@@ -19,6 +19,17 @@ UNIT = {
              "!(packed && !r.copy) ==> r.default_ == (item.s_default(ctx) && !item.s_annotations().s_no_default())",
              "!(packed && !r.copy) ==> (r.hash == item.s_hash(ctx) && r.partial_ord == item.s_partialord(ctx) && r.ord == item.s_ord(ctx) && r.partial_eq == item.s_partialeq(ctx) && r.eq == item.s_eq(ctx))",
          ]},
+        # a forward-declared struct can only derive Debug - and only when Debug is not switched off by option, pattern or annotation
+        # (found and repaired F34: the option and the pattern were ignored on this path)
+        {"kind": "fn", "file": CG, "name": "comp_derivable_traits", "impl": CI, "ret": "r",
+         "closure": {"enclosing": "codegen", "anchor": "let derivable_traits = if self.is_forward_declaration() {", "nth": 0, "stmt": "let",
+                     "signature": "fn comp_derivable_traits(self_: &CompInfo, packed: bool, is_opaque: bool, is_union: bool, zero_sized: bool, forward_decl: bool, explicit_align: Option<usize>, ctx: &BindgenContext, item: &Item) -> (r: DerivableTraits)",
+                     "prefix": "{", "suffix": "; derivable_traits }"},
+         "subst": [("self", "self_", 1, "R18 captured self")],
+         "ensures": [
+             "self_.s_forward_decl() ==> r.debug == (ctx.spec_options().derive_debug && !ctx.s_no_debug_by_name(item) && !item.s_annotations().s_no_debug())",
+             "self_.s_forward_decl() ==> !r.copy && !r.clone && !r.default_ && !r.hash && !r.partial_ord && !r.ord && !r.partial_eq && !r.eq",
+         ]},
         {"kind": "enum", "file": "bindgen/ir/derive.rs", "name": "CanDerive", "prefix": "#[derive(Copy, Clone, PartialEq, Eq, Structural)]"},
         # hand-written impls (property C08: "Where bindgen writes an impl by hand instead ...", and a trait never
         # appears with "disabled derive options" / on "user-excluded types"): the four decisions, extracted as statements
